@@ -1012,12 +1012,16 @@ def _bool(ex, st, args, kwargs, node):
 @model('builtins.isinstance')
 def _isinstance(ex, st, args, kwargs, node):
     v, t = args
-    tn = t.target if hasattr(t, 'target') else None
-    names = []
-    if isinstance(t, tuple):
-        names = [x.target for x in t]
-    else:
-        names = [tn]
+
+    def tname(x):
+        if hasattr(x, 'target'):
+            return x.target
+        if isinstance(x, str) and x.startswith('dtype:'):
+            return 'float' if 'float' in x else 'int'          # np.float64 / np.int64 scalars: as Python numbers here
+        if hasattr(x, 'dotted'):
+            return x.dotted
+        return None
+    names = [tname(x) for x in t] if isinstance(t, tuple) else [tname(t)]
     names = [n.split('.')[-1] if isinstance(n, str) else n for n in names]
     if isinstance(v, Ref):
         cell = st.get(v)
@@ -1041,6 +1045,8 @@ def _isinstance(ex, st, args, kwargs, node):
         return 'int' in names
     if isinstance(v, float) or (is_sym(v) and z3.is_real(v)):
         return 'float' in names
+    if v is None or type(v).__name__ in ('AbsObj', 'FuncV', 'NanRef'):
+        return False           # not an instance of any of the built-in / numpy types asked for
     raise Unsupported('isinstance(%r, %r)' % (v, names))
 
 
